@@ -393,6 +393,29 @@ def main():
         ck.finish()
     info = gen_params.generate(table, os.path.join(vlib.COQ, "gen", "Gen_Params.v"))
     proved = ck.prove()
+    if not ck.args.replay:
+        # what is set is what is used - across a solve: scaler / simplifier / pricer objects after a from-scratch optimize()
+        rc_a, out_a, err_a = vlib.sh([exe, "aftersolve"], timeout=600)
+        na = 0
+        for l in out_a.splitlines():
+            if not l.startswith("AFTERSOLVE "):
+                continue
+            d = {w.split("=")[0]: w.split("=")[1] for w in l.split()[1:] if "=" in w}
+            na += 1
+            ck.evaluated(("aftersolve", d["scaler"], d["persistent"], d["simplifier"], d["pricer"]), nontrivial=True)
+            rp = {"kind": "aftersolve", "line": l, "replay_note": "harness/C15.cpp afterSolve(): run `C15 aftersolve`"}
+            if d["after"] not in ("0", d["scaler"]) or d["before"] != d["scaler"] or d["param"] != d["scaler"]:
+                ck.violation("used-differs-from-set:scaler-after-solve",
+                             "int:scaler = %s (persistentscaling=%s simplifier=%s): after setIntParam the scaler object is %s, after optimize() it is %s (%s)" % (
+                                 d["scaler"], d["persistent"], d["simplifier"], d["before"], d["after"], bytes.fromhex(d.get("name", "")).decode(errors="replace")), rp)
+            if d["simp_after"] not in ("0", d["simplifier"]):
+                ck.violation("used-differs-from-set:simplifier-after-solve", "int:simplifier = %s but the simplifier object after optimize() is %s" % (d["simplifier"], d["simp_after"]), rp)
+            if d["pricer_after"] != d["pricer"]:
+                ck.violation("used-differs-from-set:pricer-after-solve", "int:pricer = %s but the pricer object after optimize() is %s" % (d["pricer"], d["pricer_after"]), rp)
+        if na < 56 or rc_a != 0:
+            ck.violation("aftersolve-incomplete", "the after-solve probe answered %d of 56 configurations (rc=%d): %s" % (na, rc_a, err_a[-200:]), {"kind": "crash"}, no_input=True)
+        ck.cov["after_solve_selections_checked"] = na
+
     B, I, R = parse_table(table)
     ck.cov["table"] = {"bool": len(B), "int": len(I), "real": len(R)}
     try:
